@@ -111,6 +111,8 @@ def value_attr(interp, obj, name):
             return M(obj, name, lambda interp, v: int(v).bit_length())
         if name in ("real", "numerator"):
             return as_int(obj)
+        if name == "__hash__":  # same model as the builtin hash(): a function of the value
+            return M(obj, name, lambda interp, v: ("hash", v))
     elif isinstance(obj, tuple):
         if name == "index":
             return M(obj, name, lambda interp, t, x: [i for i, y in enumerate(t) if interp.truth(interp.eq(x, y))][0])
